@@ -25,6 +25,7 @@ static int *word (void) { return (int *) &sem; }
 static long now_s, now_ns;
 static int posts_left = MAXPOST, posts_made, faults_left = KFAULT;
 static int clock_reads, futex_waits, futex_wakes;
+static int deadline_reached;   /* a futex wait ended with ETIMEDOUT at or after the (clamped) deadline */
 static int step;
 
 static int time_le (long as, long an, long bs, long bn) { return as < bs || (as == bs && an <= bn); }
@@ -56,6 +57,7 @@ long vf_futex (int *uaddr, int op, int val, const struct timespec *ts) {
 	VF_ASSERT (uaddr == word (), "futex on the semaphore word");
 	if ((op & FUTEX_CMD_MASK) == FUTEX_WAKE) { futex_wakes++; return 0; }
 	VF_ASSERT ((op & FUTEX_CMD_MASK) == FUTEX_WAIT_BITSET && (op & FUTEX_CLOCK_REALTIME) != 0, "absolute realtime wait");
+	VF_ASSERT (!deadline_reached, "after a wait that ended at or after the deadline the function returns instead of waiting again (termination)");
 	futex_waits++;
 	vf_env_step (uaddr);
 	if (ts != NULL && (ts->tv_sec < 0 || ts->tv_nsec < 0 || ts->tv_nsec >= 1000000000)) { errno = EINVAL; return -1; }   /* futex(2) */
@@ -75,6 +77,7 @@ long vf_futex (int *uaddr, int op, int val, const struct timespec *ts) {
 			VF_ASSUME (ts != NULL);
 			clock_advance ();
 			VF_ASSUME (time_le (ts->tv_sec, ts->tv_nsec, now_s, now_ns));
+			deadline_reached = 1;
 			errno = ETIMEDOUT; return -1;
 		}
 		/* outcome 0: asleep until a poster increments and wakes.  If no poster is left the thread sleeps for ever,
